@@ -128,6 +128,14 @@ ELECT = ([F(d, 'A', v) for v in ELECT_VERS for d in ('d1', 'd2')] +
 ELECT_MENU = [('r', 'A', None, 0), ('q', 'd2', 'A', None, 0), ('p', 'd1'), ('r', 'A', '2.0', 0)]
 
 
+# Diamond family: A includes B, C and D (both <include> orders, i.e. both recorded dependency-string orders) and
+# B includes C; get_dependencies(A) must be the closure of the immediate dependencies over the loaded namespaces.
+DIAMOND_NSS = ('A', 'B', 'C', 'D')
+DIAMOND = [F('d1', 'A', '1.0', 'B-1.0+C-1.0+D-1.0'), F('d1', 'A', '1.0', 'D-1.0+C-1.0+B-1.0'),
+           F('d1', 'B', '1.0', 'C-1.0'), F('d1', 'C', '1.0'), F('d1', 'D', '1.0')]
+DIAMOND_MENU = [('r', 'A', None, 0), ('r', 'B', None, 0), ('r', 'D', None, 0), ('r', 'C', '1.0', 0)]
+
+
 def use_names(nss):
     """namespace alphabet observed by the driver and the model (module global, set per job)"""
     global NSS
@@ -221,7 +229,7 @@ def content(key):
 
 
 def all_content_keys():
-    keys = set(f[3] for f in WIDE + CORE + WIDE_THOROUGH_EXTRA + SUBSTR + ELECT)
+    keys = set(f[3] for f in WIDE + CORE + WIDE_THOROUGH_EXTRA + SUBSTR + ELECT + DIAMOND)
     keys.update(op[1] for op in MENU_BFS + SUBSTR_MENU if op[0] == 'm')
     keys.difference_update(UNMAPPABLE)
     return sorted(keys)
@@ -230,7 +238,7 @@ def all_content_keys():
 def build_pool(b):
     """Compile every content key once per build: <builddir>/c17pool-<hash>/<key>.typelib"""
     keys = all_content_keys()
-    tag = hashlib.sha1(('v6|' + '|'.join(keys)).encode()).hexdigest()[:10]
+    tag = hashlib.sha1(('v7|' + '|'.join(keys)).encode()).hexdigest()[:10]
     pool = os.path.join(b.dir, 'c17pool-' + tag)
     if os.path.exists(os.path.join(pool, 'OK')):
         return pool
@@ -1195,6 +1203,7 @@ def run(ctx):
                 ('bfs-core3', 'bfs', False, 'reset', CORE, (3, 3), 2, MENU_BFS, ABC),
                 ('bfs-substr', 'bfs', False, 'reset', SUBSTR, (0, 3), 2, SUBSTR_MENU, SUBSTR_NSS),
                 ('bfs-elect', 'bfs', False, 'reset', ELECT, (0, 3), 2, ELECT_MENU, ('A',)),
+                ('bfs-diamond', 'bfs', False, 'reset', DIAMOND, (0, 4), 2, DIAMOND_MENU, DIAMOND_NSS),
                 ('xcheck', 'bfs', False, 'both', XCHECK_QUICK, None, 2, MENU_BFS, ABC)]
     else:
         cbuild.build(True).driver('drv_repo')
@@ -1202,6 +1211,7 @@ def run(ctx):
                 ('bfs-wide3', 'bfs', False, 'reset', WIDE + WIDE_THOROUGH_EXTRA, (0, 3), 2, MENU_BFS, ABC),
                 ('bfs-substr', 'bfs', False, 'reset', SUBSTR, (0, 4), 3, SUBSTR_MENU, SUBSTR_NSS),
                 ('bfs-elect', 'bfs', False, 'reset', ELECT, (0, 4), 2, ELECT_MENU, ('A',)),
+                ('bfs-diamond', 'bfs', False, 'reset', DIAMOND, (0, 4), 3, DIAMOND_MENU, DIAMOND_NSS),
                 ('bfs-asan', 'bfs', True, 'reset', CORE, (0, 2), 2, MENU_BFS, ABC),
                 ('xcheck', 'bfs', False, 'both', CORE, (0, 1), 2, MENU_BFS, ABC),
                 ('xcheck-family', 'bfs', False, 'both', XCHECK_QUICK, None, 2, MENU_BFS, ABC)]
@@ -1237,7 +1247,8 @@ def run(ctx):
                  'files over the namespaces T, Ab, CAb (T includes Ab and CAb, both include orders; own 6-op menu) and (bfs-elect) '
                  'every placement of <= 3 (thorough <= 4) of the 14 files A-{0.100,1.99,1.100,1.150,2.0,10.0,1.1000} x {d1,d2} '
                  'plus d1/A-2.0 as dangling symlink / as directory and d1/AExtras-20.0, with a 4-op menu (version election with '
-                 'multi-digit minors, unmappable entries, prefix-related namespace names). thorough: (all-core3) every operation sequence of '
+                 'multi-digit minors, unmappable entries, prefix-related namespace names) and (bfs-diamond) every placement of <= 4 '
+                 'of 5 files over A,B,C,D where A includes B,C,D (both include orders) and B includes C (4-op menu). thorough: (all-core3) every operation sequence of '
                  'length 1..3 WITHOUT de-duplication over every placement of <= 3 CORE files (<= 4 files does not fit 10 minutes '
                  'at the measured ~5000 histories/s), (bfs-wide3) depth-2 BFS over every placement of <= 3 files of WIDE + 6 '
                  'more files, (bfs-asan) depth-2 BFS over <= 2 CORE files with the ASan+UBSan build. '
